@@ -43,7 +43,7 @@ s("C01", "kdq-persistence-ge", DD + "kdq_tree.py", "self._drift_counter > self.p
 s("C01", "hdm-detect3-early", DD + "histogram_density_method.py", "self.batches_since_reset >= 3 and self.detect_batch == 3", "self.batches_since_reset >= 2 and self.detect_batch == 3", "GRD-warmup")
 s("C01", "adwin-drop-schedule", CD + "adwin.py", "            self.total_samples % self.new_sample_thresh == 0\n            and self._window_size", "            self._window_size", "GRD-warmup")
 s("C01", "adwin-subwindow", CD + "adwin.py", "(n_elements0 >= self.subwindow_size_thresh)\n                            and ", "", "GRD-warmup")
-s("C01", "ddm-recs-off-by-one", CO + "ddm.py", "            self._retraining_recs[1] = self.total_samples - 1", "            self._retraining_recs[1] = self.total_samples", "FRM-recs")
+s("C01", "ddm-recs-off-by-one", CO + "ddm.py", "            self._retraining_recs[1] = self.total_samples - 1", "            self._retraining_recs[1] = self.total_samples", "TAB-recs")
 s("C01", "eddm-reset-keeps-recs", CO + "eddm.py", "        self._test_statistic = None\n        self._initialize_retraining_recs()\n\n    # XXX", "        self._test_statistic = None\n\n    # XXX", "MC-recs")
 s("C01", "nndvi-state-typo", DD + "nndvi.py", 'self._drift_state = "drift"', 'self._drift_state = "Drift"', "WR-domain")
 s("C01", "pcacd-drop-flag", DD + "pca_cd.py", "                    self._build_reference_and_test = True\n                    self.drift_state", "                    self.drift_state", "PAIR")
@@ -120,7 +120,7 @@ s("C05", "stepd-drop-decreased", CO + "stepd.py", "if accuracy_decreased and sel
 s("C05", "stepd-r-gets-newest", CO + "stepd.py", "            self._r += self._window[0]", "            self._r += self._window[-1]", "PAIR")
 s("C05", "stepd-continuity-one", CO + "stepd.py", "                - 0.5\n                * (", "                - 1.0\n                * (", "FRM")
 s("C05", "eddm-dist-swapped", CO + "eddm.py", "dist = self._index_error_curr - self._index_error_last", "dist = self._index_error_last - self._index_error_curr", "FRM")
-s("C05", "stepd-else-keeps-recs", CO + "stepd.py", "                self.drift_state = None\n                self._initialize_retraining_recs()", "                self.drift_state = None", "MC-recs")
+s("C05", "stepd-else-keeps-recs", CO + "stepd.py", "                self.drift_state = None\n                self._initialize_retraining_recs()", "                self.drift_state = None", "TAB-recs")
 s("C05", "ddm-min-lt", CO + "ddm.py", "            <= self._error_rate_min + self._error_std_min\n", "            < self._error_rate_min + self._error_std_min\n", "FRM")
 s("C05", "ddm-std-old-rate-twice", CO + "ddm.py", "self._error_std = self._error_std + (classifier_result - self._error_rate) * (\n            classifier_result - error_rate_prev\n        )", "self._error_std = self._error_std + (classifier_result - error_rate_prev) * (\n            classifier_result - error_rate_prev\n        )", "FRM")
 s("C05", "eddm-max-2std-to-std", CO + "eddm.py", "curr_numerator = self._dist_mean + 2 * self._dist_std", "curr_numerator = self._dist_mean + self._dist_std", "FRM")
